@@ -8,12 +8,13 @@ from harness import core, tlc
 from harness.core import cps, uncps
 from . import codec_common as cc
 
-DIRS = ["system", "codec", "notedata", "beat"]
+DIRS = ["system", "codec", "notedata", "beat", "convert"]
 EDIT_OPS = {"getattr", "setattr", "delattr", "setkey", "delkey", "appendchart", "removechart", "swapcharts",
             "setchartitem", "delchartitem", "setchartfield", "setchartextra", "create"}
 SAVE_OPS = {"save", "reopen", "load"}
 READ_OPS = {"readnotes", "readtiming"}
 CONVERT_OPS = {"tossc"}
+TOSM_OPS = {"tosm"}
 ATTRS = {"sm": ["title", "artist", "stops", "bgchanges"], "ssc": ["title", "artist", "stops", "bgchanges", "version"]}
 SMF = ["stepstype", "description", "difficulty", "meter", "radarvalues", "notes"]
 SAFE = "abcXYZ019 _-.,=()é猫"
@@ -37,13 +38,13 @@ def chart_proj(c, fmt):
     return cc.proj_items(c)
 
 
-def session(rid, seed):
+def session(rid, seed, tosm_bias=False):
     import simfile
     from simfile.sm import SMSimfile, SMChart
     from simfile.ssc import SSCSimfile, SSCChart
     from simfile.convert import sm_to_ssc
     rng = random.Random(seed)
-    fmt = rng.choice(["sm", "ssc"])
+    fmt = rng.choice(["sm", "ssc"]) if not tosm_bias else "ssc"
     evs = []
 
     def log(op, sf, **kw):
@@ -207,7 +208,7 @@ def session(rid, seed):
                     except Exception as e:  # noqa
                         # TimingData reads all five fields at once: only a failure caused by THIS list is attributable
                         continue
-            elif r < 0.95:
+            elif r < (0.95 if not tosm_bias else 0.85):
                 on_disk = rng.random() < 0.4 and "\r" not in "".join(v or "" for v in sf.values())
                 try:
                     if on_disk:
@@ -246,6 +247,20 @@ def session(rid, seed):
                     log("tossc", sf, tmpl=cc.proj_items(tmpl), ctmpl=cc.proj_items(ctmpl), res="ok")
                 except Exception as e:  # noqa
                     pass        # (negative timing values / unparsable timing strings: not part of a session)
+            else:
+                # ssc_to_sm under a random policy; the object becomes an SM simfile when it succeeds
+                from simfile.convert import ssc_to_sm
+                from . import convert_common as cv
+                kinds = ["version", "metadata", "filepath", "gameplay", "timing"]
+                beh = [(k, rng.choice(["copy", "ignore", "unlessdefault", "error"])) for k in kinds if rng.random() < 0.35]
+                tmpl, ctmpl = SMSimfile.blank(), SMChart.blank()
+                args = dict(tmpl=cc.proj_items(tmpl), ctmpl=chart_proj(ctmpl, "sm"), beh=[{"kind": k, "b": b} for k, b in beh])
+                try:
+                    out = ssc_to_sm(sf, invalid_property_behaviors=cv.beh_enum(beh)) if beh or rng.random() < 0.5 else ssc_to_sm(sf)
+                    sf, fmt = out, "sm"
+                    log("tosm", sf, res={"st": "ok", "msg": []}, **args)
+                except Exception as e:  # noqa
+                    log("tosm", sf, res={"st": type(e).__name__, "msg": cps(str(e))}, **args)
         except Exception as e:  # noqa
             evs.append({"op": "harness-note", "after": after(sf), "note": "%s: %r" % (type(e).__name__, e)})
             break
@@ -253,8 +268,8 @@ def session(rid, seed):
     return {"id": rid, "events": evs}
 
 
-def run_sessions(ctx, n, seed):
-    jobs = [(i, seed * 8191 + i) for i in range(n)]
+def run_sessions(ctx, n, seed, tosm_bias=False):
+    jobs = [(i, seed * 8191 + i, tosm_bias) for i in range(n)]
     sessions = core.pmap(_job, jobs, chunk=25)
     parts = core.chunks(sessions, 16)
     jobs2 = []
